@@ -45,6 +45,8 @@ FLOORS = {
                                                    "forest.extractions_with_reverse_key": 800,
                                                    "forest.found_rules_checked": 10000}},
 }
+# W5: the repository's own test suite runs once under these ambient monitors (thorough tier)
+W5_MONITORS = ['forest']
 CASE_TIMEOUT = {"quick": 60, "thorough": 120}
 SIZES = {"quick": (1500, 500, 250), "thorough": (30000, 10000, 5000)}
 
